@@ -171,11 +171,13 @@ static void rm_tree(void)
 	for (int i = 0; dirs[i]; i++) rmdir(dirs[i]);
 }
 
-static int lowest_free_fd(void)
+/* number of open descriptors below 256 */
+static int open_fds(void)
 {
-	int fd = open("/dev/null", O_RDONLY);
-	if (fd >= 0) close(fd);
-	return fd;
+	int n = 0;
+	for (int fd = 0; fd < 256; fd++)
+		if (fcntl(fd, F_GETFD) != -1) n++;
+	return n;
 }
 
 static void out_setting(const char *tag, int k)
@@ -205,7 +207,7 @@ static void run_case(int nf, struct field *f)
 	if (f[3].p[0] == 2) put_file("dom/filterconf", f[3].p + 1, f[3].len - 1);
 	if (f[4].p[0] == 2) put_file("control/filterconf", f[4].p + 1, f[4].len - 1);
 
-	const int fd0 = lowest_free_fd();
+	const int fd0 = open_fds();
 	controldir_fd = open("control", O_RDONLY | O_DIRECTORY);
 	if (controldir_fd < 0) abort();
 
@@ -258,7 +260,7 @@ static void run_case(int nf, struct field *f)
 	free(linein.s); free(rcpthosts); free(key); free(tmpconf);
 	globalconf = NULL; probe_key = NULL;
 	close(controldir_fd);
-	out_str(" leak="); out_int(lowest_free_fd() != fd0);
+	out_str(" leak="); out_int(open_fds() != fd0);
 	rm_tree();
 	if (chdir("/") == 0) rmdir(base);
 }
